@@ -17,13 +17,13 @@ inductive Comp
   | normal (s : List Char)
   | cur
   | parent
-  deriving DecidableEq, Repr, BEq
+  deriving DecidableEq, Repr
 
 /-- component form of a path: `abs` = has a root (`/…`), `comps` = the components after the root -/
 structure P where
   abs : Bool
   comps : List Comp
-  deriving DecidableEq, Repr, BEq
+  deriving DecidableEq, Repr
 
 /-- split at every `/` (pieces may be empty) -/
 def splitSlash : List Char → List (List Char)
@@ -45,14 +45,14 @@ def compOfPiece (p : List Char) : Option Comp :=
 def firstComp (p : List Char) : Option Comp :=
   if p = ['.'] then some .cur else compOfPiece p
 
+/-- components of a relative path string -/
+def relComps (s : List Char) : List Comp :=
+  match splitSlash s with
+  | [] => []        -- unreachable
+  | p :: ps => (firstComp p).toList ++ ps.filterMap compOfPiece
+
 def parse (s : List Char) : P :=
-  match s with
-  | [] => ⟨false, []⟩
-  | '/' :: _ => ⟨true, (splitSlash s).filterMap compOfPiece⟩
-  | _ =>
-    match splitSlash s with
-    | [] => ⟨false, []⟩
-    | p :: ps => ⟨false, (firstComp p).toList ++ ps.filterMap compOfPiece⟩
+  if s.head? = some '/' then ⟨true, (splitSlash s).filterMap compOfPiece⟩ else ⟨false, relComps s⟩
 
 /-- `Path::as_os_str().is_empty()` in component form (see `parse_eq_empty_iff`) -/
 def P.isEmpty (p : P) : Bool := !p.abs && p.comps.isEmpty
@@ -79,7 +79,7 @@ def P.fileName? (p : P) : Option (List Char) :=
 
 /-- all components, the root included (as `Components` yields them) -/
 inductive FullComp | root | c (x : Comp)
-  deriving DecidableEq, BEq
+  deriving DecidableEq
 
 def P.full (p : P) : List FullComp := (if p.abs then [FullComp.root] else []) ++ p.comps.map .c
 
